@@ -14,8 +14,8 @@ MANIFEST = {
             "FullScoreForgotState return the same (textbook) probability; out-state length <= min(order-1, in+1) for any "
             "input state; states equal on (length, words[0..length)) have identical back-offs and identical results for "
             "every continuation; ==, <, Compare are a consistent total order (byte-wise memcmp on little-endian words) "
-            "and == implies equal hash for State; for Left the hash clause is proved false with a witness (empty left "
-            "states differing in `full`). Tied to the code by the lm-query stream (FullScore vs FullScoreForgotState vs "
+            "and == implies equal hash for State; same for Left and ChartState (after repo patch 61: the old "
+            "hash_value(Left) is proved inconsistent with == by a witness). Tied to the code by the lm-query stream (FullScore vs FullScoreForgotState vs "
             "GetState for every prefix of every walk, all pairs of equal states for recombination, six model classes) "
             "and the state-algebra stream (random + adversarial struct contents incl. garbage beyond length).",
     "note": "Trusted: Lean kernel + standard axioms; statements in lean/Properties/C02.lean; harnesses c01_lmquery.cc / "
@@ -25,7 +25,7 @@ MANIFEST = {
 
 REQUIRED = ["KV.C02.state_sufficient", "KV.C02.state_bounds", "KV.C02.fullScore_congr", "KV.C02.equal_states_equal_backoffs",
             "KV.C02.compare_trichotomy", "KV.C02.compare_sign", "KV.C02.eq_hash", "KV.C02.eq_ignores_garbage",
-            "KV.C02.left_trichotomy", "KV.C02.left_eq_hash_partial", "KV.C02.left_eq_hash_fails"]
+            "KV.C02.left_trichotomy", "KV.C02.left_eq_hash", "KV.C02.chart_eq_hash", "KV.C02.left_eq_hash_failed_before_fix"]
 
 KEY_LEFT = "left-empty-full-hash"
 
@@ -95,9 +95,17 @@ def lm_stream(ctx, hexe, dexe, n_cases, size):
                           "arpa": case.arpa.decode("utf-8", "replace"), "stderr": (e1 + e2)[-2000:]})
             found = True
             continue
-        probs, st = lmq.compare(case, o1, o2, want=("oracle", "struct"))
-        probs = [p for p in probs if not p.get("known_key")]
-        p2, pairs = c02_oracle(case, o1, o2)
+        try:
+            probs, st = lmq.compare(case, o1, o2, want=("oracle", "struct"))
+            probs = [p for p in probs if not p.get("known_key")]
+            p2, pairs = c02_oracle(case, o1, o2)
+        except Exception:
+            import traceback
+            ctx.violation("lm-query (C02): output of the harness/driver could not be parsed/compared for this case",
+                          {"stream": "lm-query", "arpa": case.arpa.decode("utf-8", "replace"), "queries": case.queries,
+                           "traceback": traceback.format_exc()[-1500:]})
+            found = True
+            continue
         ctx.hist("lm.equal_state_pairs", min(pairs, 50) // 10 * 10)
         ctx.count(("lm-query", case.arpa, tuple(map(str, case.queries))), nontrivial=st["nontrivial"] > 0 and not st.get("skipped"),
                   n=max(1, st["words"]))
@@ -212,7 +220,7 @@ def algebra_stream(ctx, hexe, dexe, n):
         elif eq and not heq:
             bad = "equal objects hash differently"
         if bad:
-            key = KEY_LEFT if (bad.startswith("equal objects") and empty_full) else None
+            key = None    # the Left hash deviation is repaired by repo_patches/61-fix-left-hash.patch
             if ctx.violation("state-algebra: %s (%s)" % (bad, kind), {"stream": "state-algebra", "op": op, "impl": li}, key=key):
                 found = True
     return found
